@@ -11,6 +11,30 @@ pub fn reaching_definitions(
     fixed_point::fixed_point_forward(rda, function)
 }
 
+/// The definitions which reach `location` before it executes.
+///
+/// `reaching_definitions` reports, for every location, the definitions which
+/// hold after that location has executed. The definitions an instruction sees
+/// when it reads its operands are those which hold after its predecessors.
+pub(crate) fn reaching_before(
+    function: &il::Function,
+    rd: &HashMap<il::ProgramLocation, LocationSet>,
+    location: &il::ProgramLocation,
+) -> Result<LocationSet, Error> {
+    let location =
+        il::RefProgramLocation::new(function, location.function_location().apply(function)?);
+    let mut reaching = LocationSet::new();
+    for predecessor in location.backward()? {
+        if let Some(definitions) = rd.get(&predecessor.into()) {
+            definitions
+                .locations()
+                .iter()
+                .for_each(|definition| reaching.insert(definition.clone()));
+        }
+    }
+    Ok(reaching)
+}
+
 // We require a struct to implement methods for our analysis over.
 struct ReachingDefinitionsAnalysis<'r> {
     function: &'r il::Function,
